@@ -15,6 +15,8 @@ PlainS == Lit(StrD(Sa), <<>>)
 Candidates == {NumD(e) : e \in NumExamples} \cup {StrD(e) : e \in StrExamples \cup {SEmail, SUri, SUuid, SDate, SDateTime}} \cup {BoolD(TRUE), Null}
 GoodSet(x) == {v \in {c \in Candidates : c.t = x.v.t /\ KindOfValue(c) = KindOfValue(x.v)} : Verdict([types |-> <<>>, enums |-> <<>>], [x EXCEPT !.v = v], v, FALSE) = "accept"}
 GoodFor(x) == CHOOSE v \in GoodSet(x) : TRUE
+BadSet(x) == {v \in {c \in Candidates : c.t = x.v.t /\ KindOfValue(c) = KindOfValue(x.v)} : Verdict([types |-> <<>>, enums |-> <<>>], [x EXCEPT !.v = v], v, FALSE) = "reject"}
+BadFor(x) == CHOOSE v \in BadSet(x) : TRUE
 \* container contexts: <<wrapper, path of the hole>>
 Wrap(c, x) ==
   CASE c = 0 -> [n |-> x, path |-> <<>>]
@@ -38,9 +40,14 @@ Wrap(c, x) ==
     \* a sibling that is a type shortcut (it admits every JSON kind) is checked before the hole
     [] c = 15 -> [n |-> Obj(<<P(Kb, [t |-> "ref", names |-> <<"@I">>, rules |-> <<>>]), P(Ka, x)>>, <<>>), path |-> <<"a">>]
     [] c = 16 -> [n |-> Arr(<<[t |-> "ref", names |-> <<"@S", "@I">>, rules |-> <<>>], x>>, <<>>), path |-> <<"1">>]
-Contexts == 0..16
+    \* the root's value breaks a rule of the type @B it refers to (@B itself is sound): the position is that of the root's value
+    [] c = 17 -> [n |-> Lit(BadFor(x), <<R("type", [t |-> "tref", s |-> "@B"])>>), path |-> <<>>]
+    [] c = 18 -> [n |-> Obj(<<P(Ka, Lit(NumD(N1), <<R("type", [t |-> "tref", s |-> "@I"])>>)),
+                              P(Kb, Lit(BadFor(x), <<R("type", [t |-> "tref", s |-> "@B"])>>))>>, <<>>), path |-> <<"b">>]
+Contexts == 0..18
+RefBad(c) == c \in {17, 18}
 InType(c) == c \in 10..14
-NonPlain(c) == c \in 10..16                 \* the root's example is not plain JSON (it names types): C04's forward half does not apply
+NonPlain(c) == c \in 10..18                 \* the root's example is not plain JSON (it names types): C04's forward half does not apply
 
 RECURSIVE ExampleOf(_)
 ExampleOf(n) ==
@@ -72,21 +79,23 @@ GoodLeaves == Schemas \cup {Arr(<<Plain1, Plain1>>, <<R("maxItems", NV(N2))>>), 
 
 VARIABLES leaf, ctx, good
 Init == /\ ctx \in Contexts
-        /\ \/ (good = TRUE /\ leaf \in GoodLeaves) \/ (good = FALSE /\ leaf \in BadLeaves)
-        /\ (Level = 1 => (ctx \in {0, 1, 3, 4, 7, 8, 10, 12, 13, 14, 15}))
+        /\ \/ (good = TRUE /\ leaf \in GoodLeaves /\ ~RefBad(ctx)) \/ (good = FALSE /\ leaf \in BadLeaves /\ ~RefBad(ctx))
+           \/ (good = FALSE /\ RefBad(ctx) /\ leaf \in {x \in Schemas : x.t = "lit"} /\ BadSet(leaf) # {})
+        /\ (Level = 1 => (ctx \in {0, 1, 3, 4, 7, 8, 10, 12, 13, 14, 15, 17, 18}))
         /\ (InType(ctx) => leaf.t = "lit")
         /\ (NonPlain(ctx) => leaf.t \in {"lit", "arr"})
         /\ (ctx \in {13, 14} => GoodSet(leaf) # {})
 Next == UNCHANGED <<leaf, ctx, good>>
 Spec == Init /\ [][Next]_<<leaf, ctx, good>>
 W == Wrap(ctx, leaf)
-EnvC == IF InType(ctx) THEN [Env0 EXCEPT !.types = @ \o <<[name |-> "@B", n |-> leaf]>>] ELSE Env0
+EnvC == IF InType(ctx) \/ RefBad(ctx) THEN [Env0 EXCEPT !.types = @ \o <<[name |-> "@B", n |-> leaf]>>] ELSE Env0
 \* what the requirement says about the example of the whole schema (for a value inside a type: about the type's own example)
-SelfVerdict == IF InType(ctx) THEN Verdict(EnvC, leaf, leaf.v, FALSE)
+SelfVerdict == IF RefBad(ctx) THEN Verdict(EnvC, W.n, ExampleOf(W.n), FALSE)
+               ELSE IF InType(ctx) THEN Verdict(EnvC, leaf, leaf.v, FALSE)
                ELSE IF NonPlain(ctx) THEN Verdict(Env0, leaf, ExampleOf(leaf), FALSE)
                ELSE Verdict(Env0, W.n, ExampleOf(W.n), FALSE)
 Emit == PrintT("@@CASE " \o ToJson([schema |-> W.n, env |-> EnvC, good |-> good, path |-> W.path, intype |-> InType(ctx), plain |-> ~NonPlain(ctx),
-                                   example |-> IF NonPlain(ctx) THEN ExampleOf(leaf) ELSE ExampleOf(W.n), self |-> SelfVerdict]))
+                                   example |-> IF NonPlain(ctx) /\ ~RefBad(ctx) THEN ExampleOf(leaf) ELSE ExampleOf(W.n), self |-> SelfVerdict]))
 \* the generator is sound with respect to the requirement: good examples obey, corrupted ones do not
 GoodObeys == good => SelfVerdict # "reject"
 BadViolates == ~good => SelfVerdict = "reject"
